@@ -137,4 +137,85 @@ Section Blocks.
       rewrite blocks_cons by assumption. cbn [app]. f_equal.
       apply (IH (length (skipn bs l))); [rewrite skipn_length; lia|reflexivity].
   Qed.
+
+  Lemma skipn_skipn_add (n m : nat) (l : list A) : skipn n (skipn m l) = skipn (m + n) l.
+  Proof.
+    revert l. induction m as [|m IH]; intros l; cbn [plus]; [reflexivity|].
+    destruct l as [|x l']; [destruct n; reflexivity|]. cbn [skipn]. apply IH.
+  Qed.
+
+  (** the j-th block is the j-th window of [bs] elements *)
+  Lemma blocks_nth j : forall (l : list A), j * bs < length l ->
+    nth_error (blocks bs l) j = Some (firstn bs (skipn (j * bs) l)).
+  Proof.
+    induction j as [|j IH]; intros l Hl.
+    - assert (l <> []) by (destruct l; [cbn in Hl; lia|congruence]).
+      rewrite blocks_cons by assumption. reflexivity.
+    - assert (l <> []) by (destruct l; [cbn in Hl; lia|congruence]).
+      rewrite blocks_cons by assumption. cbn [nth_error].
+      rewrite IH by (rewrite skipn_length; lia).
+      rewrite skipn_skipn_add. replace (bs + j * bs) with (S j * bs) by lia. reflexivity.
+  Qed.
+
+  Lemma blocks_nth_none j : forall (l : list A), length l <= j * bs -> nth_error (blocks bs l) j = None.
+  Proof.
+    induction j as [|j IH]; intros l Hl.
+    - destruct l; [reflexivity|cbn in Hl; lia].
+    - destruct l as [|x l'] eqn:E; [reflexivity|]. rewrite <- E in *.
+      rewrite blocks_cons by (subst; congruence). cbn [nth_error].
+      apply IH. rewrite skipn_length. lia.
+  Qed.
+
+  Lemma blocks_length_iff j (l : list A) : j < length (blocks bs l) <-> j * bs < length l.
+  Proof.
+    split; intros Hj.
+    - destruct (Nat.lt_ge_cases (j * bs) (length l)) as [|Hge]; [assumption|].
+      apply blocks_nth_none in Hge. apply nth_error_None in Hge. lia.
+    - apply nth_error_Some. rewrite blocks_nth by assumption. discriminate.
+  Qed.
+
+  (** the number of blocks is the ceiling of length / bs *)
+  Lemma blocks_length_bounds (l : list A) : l <> [] ->
+    (length (blocks bs l) - 1) * bs < length l <= length (blocks bs l) * bs.
+  Proof.
+    intros Hl. set (n := length (blocks bs l)).
+    assert (Hn : 0 < n).
+    { unfold n. rewrite blocks_cons by assumption. cbn. lia. }
+    split.
+    - apply blocks_length_iff. lia.
+    - destruct (Nat.lt_ge_cases (length l) (n * bs)) as [|Hge]; [lia|].
+      destruct (Nat.eq_dec (length l) (n * bs)) as [|Hne]; [lia|].
+      assert (n < length (blocks bs l)) by (apply blocks_length_iff; lia). unfold n in *. lia.
+  Qed.
+
+  Lemma blocks_nth_length j (l : list A) b : nth_error (blocks bs l) j = Some b ->
+    length b = Nat.min bs (length l - j * bs) /\ j * bs < length l.
+  Proof.
+    intros Hn. assert (Hj : j < length (blocks bs l)) by (apply nth_error_Some; congruence).
+    apply blocks_length_iff in Hj. rewrite blocks_nth in Hn by assumption. inversion Hn.
+    rewrite firstn_length, skipn_length. split; lia.
+  Qed.
+
 End Blocks.
+
+Lemma nth_error_firstn_lt {A} (k : nat) : forall (l : list A) n, n < k -> nth_error (firstn k l) n = nth_error l n.
+Proof.
+  induction k as [|k IH]; intros l n Hn; [lia|].
+  destruct l as [|x l']; [destruct n; reflexivity|].
+  destruct n as [|n]; [reflexivity|]. cbn [firstn nth_error]. apply IH. lia.
+Qed.
+
+Lemma nth_error_skipn_add {A} (k : nat) : forall (l : list A) n, nth_error (skipn k l) n = nth_error l (k + n).
+Proof.
+  induction k as [|k IH]; intros l n; [reflexivity|].
+  destruct l as [|x l']; [destruct n; reflexivity|]. cbn [skipn plus nth_error]. apply IH.
+Qed.
+
+Lemma nth_error_ext_eq {A} : forall (l1 l2 : list A), (forall n, nth_error l1 n = nth_error l2 n) -> l1 = l2.
+Proof.
+  induction l1 as [|x l1 IH]; intros l2 Hn.
+  - destruct l2 as [|y l2]; [reflexivity|]. specialize (Hn 0). discriminate.
+  - destruct l2 as [|y l2]; [specialize (Hn 0); discriminate|].
+    pose proof (Hn 0) as H0. cbn in H0. inversion H0. subst y. f_equal.
+    apply IH. intros n. exact (Hn (S n)).
+Qed.
